@@ -65,6 +65,36 @@ def run(tier, seed):
             pd, reg = regsim.build(s)
             form = "record" if (n1 in regcat.RECORD_ONLY or n2 in regcat.RECORD_ONLY) else rng.choice(regrun.FORMS)
             B.run_case(regrun.policy_of(pd), reg, form, "reject", f"{n1}+{n2}/{fmt}", scn=s)
+    # structural mutation stream on the attestation object (model vs implementation only): members of the CBOR map and of the
+    # statement replaced by values of other types / deleted / duplicated
+    import cbor2, copy
+    from harness import cborgen
+    VALS = [None, True, False, 0, 1, -7, b"", b"x", "", "packed", "none", "2.0", [], [b""], {}, {"a": 1}, 2 ** 40, [b"x", 5], b"\x00" * 40]
+    for i in range(250 if quick else 4000):
+        fmt = rng.choice(regsim.FORMATS)
+        s = regsim.RScn(fmt, "ES256-P256")
+        pd, reg = regsim.build(s)
+        ao = cbor2.loads(reg.att_obj)
+        for _ in range(rng.choice([1, 1, 2])):
+            where = rng.random()
+            if where < 0.25:
+                k = rng.choice(["fmt", "authData", "attStmt", "extra"])
+                if rng.random() < 0.3:
+                    ao.pop(k, None)
+                else:
+                    ao[k] = copy.deepcopy(rng.choice(VALS))
+            elif isinstance(ao.get("attStmt"), dict):
+                st = ao["attStmt"]
+                k = rng.choice(list(st) + ["sig", "alg", "x5c", "ver", "response", "certInfo", "pubArea", "unknown"])
+                if rng.random() < 0.3:
+                    st.pop(k, None)
+                else:
+                    st[k] = copy.deepcopy(rng.choice(VALS))
+        try:
+            reg.att_obj = cbor2.dumps(ao)
+        except Exception:
+            continue
+        B.run_case(regrun.policy_of(pd), reg, "record", None, f"attobj-mutation/{fmt}", scn=None)
     B.close()
     chk.notes.append({"oracle_queries": B.O.counts})
     return fw.finish(chk, ob, br, TRUSTED,
